@@ -21,13 +21,14 @@ KINDS = [
     ("ahref", '<ahref="{H}">x</ahref>', False),
     ("script", '<script>var s = \'<a href="{H}">x</a>\';</script>', False),
     ("script2", '<script src="x.js"></script><SCRIPT type="t">document.write("<a href=\'{H}\'>");</SCRIPT>', False),
+    ("SCRIPT", '<SCRIPT TYPE="text/javascript">document.write(\'<a href="{H}">x</a>\');</SCRIPT>', False),
     ("text", "hello é &amp; &#x2F; world", False),
     ("name-only", '<a name="{H}">x</a>', False),
 ]
 HREFS = ["http://b.com/x", "https://b.com/y?a=1&amp;b=2", "//c.com/z", "rel/page", "../up", "?q=1", "#", "#frag", "javascript:void(0)",
          "mailto:x@y.com", "", " http://b.com/pad ", " http://b.com/nb ", "http://a.notatld/x", "http://a.com/base",
          "HTTP://A.com:80/base", "HTTP://B.COM/x", "http://b.com/a b", "http://b.com/é", "http://b.com&#x2F;e", "/abs#f",
-         "http://b.com/x#f", "&quot;q&quot;", "&nbsp;http://b.com/n"]
+         "http://b.com/x#f", "&quot;q&quot;", "&nbsp;http://b.com/n", "/a/../b.html", "/dir/../base", "/./abs"]
 BASES = ["http://a.com/base", "http://a.com/dir/", "http://a.com/base#frag", "HTTP://A.COM/base"]
 NPOS = 3
 KNAMES = [k for k, _, _ in KINDS]
